@@ -15,6 +15,7 @@ mod c02;
 mod c03;
 mod c04;
 mod c10;
+mod c16;
 mod c05;
 
 use runner::Tier;
@@ -27,6 +28,7 @@ fn dispatch_replay(prop: &str, w: &serde_json::Value) -> Vec<(String, String)> {
         "C04" => c04::replay(w),
         "C05" => c05::replay(w),
         "C10" => c10::replay(w),
+        "C16" => c16::replay(w),
         _ => vec![],
     }
 }
@@ -69,6 +71,7 @@ fn main() {
         "C04" => c04::run(tier),
         "C05" => c05::run(tier),
         "C10" => c10::run(tier),
+        "C16" => c16::run(tier),
         other => {
             eprintln!("unknown property {}", other);
             2
